@@ -5,6 +5,7 @@
 -/
 import Nuts.Model.Tx
 import NutsProofs.Lemmas.Assoc
+import NutsProofs.Lemmas.MergeReopen
 namespace NutsProofs.C16
 open Nuts Nuts.Model Nuts.Model.DB NutsProofs
 
@@ -46,5 +47,80 @@ theorem sadd_idem (m : SetDS.St) (k : Bytes) (x : Bytes) :
 /-- Witness for lists (finding D-MERGE): a push replayed twice is NOT idempotent. -/
 theorem C16_witness_push_not_idempotent :
     (ListDS.rpush (ListDS.rpush [] [107] [[1]]).1 [107] [[1]]).1 ≠ (ListDS.rpush [] [107] [[1]]).1 := by decide
+
+/-! ### a crash between two files of Merge, key/value data
+
+`Merge` works through the data files in ascending order: for each, the rewrite transaction and then the removal
+of the file. `merge.go now s (fids.take k) txids` is the state after the first `k` files. The loop invariant
+(`MergeKV.go_spec`) holds for every prefix of the file list, and a state with the invariant reopens to the same
+live contents (`MergeKV.reads_after_reopen`). -/
+
+open NutsProofs.Reopen NutsProofs.KVRefine NutsProofs.Hints NutsProofs.MergeKV in
+/-- **C16 (key/value data, crash between two files of Merge, key+value mode, every history).** After any
+history of key/value transactions and reopens (records fitting the segment size in force), Merge starts at
+clock value `now` and the process dies after it has completely handled the first `k` data files — any `k`,
+also all of them — i.e. after a removal and before the next rewrite. Reopening in key+value mode succeeds, and
+`Get`, `GetAll`, `RangeScan`, and `PrefixScan` / `PrefixSearchScan` without offset and limit return at every
+time `t ≥ now` what they returned before Merge started. Crash points *inside* the handling of one file (while
+the rewrite transaction is being written; after it committed and before the old file is removed) are not
+covered by this theorem: the suite `db-mcrash` visits them (open finding D-MERGE-ZSET-STALE is of that kind,
+for sorted sets). -/
+theorem C16_crash_between_files_of_merge (opt0 : Opts) (ops : List Op) (hok : OpsOk (openDB opt0 []).1 ops)
+    (hrec : OpsRecOk ops)
+    (hsz : ∀ x ∈ allRecs (ops.foldl stepOp (openDB opt0 []).1).files, ¬ x.1.size > (ops.foldl stepOp (openDB opt0 []).1).opt.seg)
+    (hm : (ops.foldl stepOp (openDB opt0 []).1).opt.mode = 0)
+    (now : Nat) (txids : List Nat) (k : Nat)
+    (hl : (merge.go now (ops.foldl stepOp (openDB opt0 []).1)
+            (((ops.foldl stepOp (openDB opt0 []).1).files.map (·.fid)).take k) txids).1.activeUnlinked = false)
+    (opt : Opts) (hmo : opt.mode = 0) (t : Nat) (hle : now ≤ t) (ht : t < 2 ^ 64) (b : Bytes) :
+    let s := ops.foldl stepOp (openDB opt0 []).1
+    let sk := (merge.go now s ((s.files.map (·.fid)).take k) txids).1
+    let s2 := (openDB opt sk.files).1
+    (openDB opt sk.files).2 = .ok () ∧
+    (∀ key, (DB.get s2 b key t).map (Option.map (·.value)) = (DB.get s b key t).map (Option.map (·.value))) ∧
+    ((getAll s2 b t).map pairsOf = (getAll s b t).map pairsOf) ∧
+    (∀ st en, (rangeScan s2 b st en t).map pairsOf = (rangeScan s b st en t).map pairsOf) ∧
+    (∀ pre mt, (prefixScan s2 b pre 0 (-1) t mt).map pairsOf = (prefixScan s b pre 0 (-1) t mt).map pairsOf) := by
+  intro s sk s2
+  have hinv : LogInv s := logInv_ops ops _ (logInv_init opt0) hok
+  have hpk : Packed s := packed_ops ops _ (logInv_init opt0) (packed_init opt0) hok
+  have hlog : (allRecs s.files).map (·.1) = logOf ops := by
+    have h0 : (allRecs (openDB opt0 []).1.files).map (·.1) = [] := by simp [openDB, fileEnsure, allRecs]
+    have := log_of_ops ops _ (logInv_init opt0) hok
+    rw [h0, List.nil_append] at this
+    exact this
+  have hL : ∀ x ∈ allRecs s.files, RecOk x.1 := by
+    intro x hx
+    apply logOf_recOk ops hrec
+    rw [← hlog]; exact List.mem_map.mpr ⟨x, hx, rfl⟩
+  have hmk : MarkedLog (allRecs s.files) := markedLog_ops ops _ (logInv_init opt0) (packed_init opt0) (markedLog_init opt0) hok
+  have hminv := minv_of_logInv s now hinv hpk hL hsz hmk
+  -- the loop invariant, for the prefix of the file list
+  have hasc : ((s.files.map (·.fid)).take k).Pairwise (· < ·) := List.Pairwise.sublist (List.take_sublist _ _) hpk.fids
+  have hcov : ∀ g ∈ s.files, g.fid ∈ (s.files.map (·.fid)).take k ∨ ∀ x ∈ (s.files.map (·.fid)).take k, x < g.fid := by
+    intro g hg
+    have hgm : g.fid ∈ s.files.map (·.fid) := List.mem_map.mpr ⟨g, hg, rfl⟩
+    rw [← List.take_append_drop k (s.files.map (·.fid))] at hgm
+    rcases List.mem_append.mp hgm with h1 | h1
+    · exact Or.inl h1
+    · right
+      intro x hx
+      have hsplit := hpk.fids
+      rw [← List.take_append_drop k (s.files.map (·.fid)), List.pairwise_append] at hsplit
+      exact hsplit.2.2 x hx g.fid h1
+  have hle' : ∀ x ∈ (s.files.map (·.fid)).take k, x ≤ s.activeFid := by
+    intro x hx
+    obtain ⟨g, hg, rfl⟩ := List.mem_map.mp (List.mem_of_mem_take hx)
+    obtain ⟨pre0, a0, hf0, ha0, hpre0⟩ := hinv.shape.split
+    rw [hf0] at hg
+    rcases List.mem_append.mp hg with hg | hg
+    · have := hpre0 g hg; omega
+    · simp at hg; subst hg; omega
+  obtain ⟨_, hminvk, hvis, _, hopt⟩ := go_spec now _ s txids hminv hasc hcov hle' hl
+  have hmk1 : sk.opt.mode = 0 := by show (merge.go now s _ txids).1.opt.mode = 0; rw [hopt]; exact hm
+  obtain ⟨a1, a2, a3, a4⟩ := reads_of_vis_minv s sk now hminv hminvk hm hmk1 hvis t ht b
+  obtain ⟨hok2, b1, b2, b3, b4⟩ := reads_after_reopen sk now hminvk hmk1 opt hmo t hle ht b
+  exact ⟨hok2, fun key => by rw [b1 key, a1 key], by rw [b2, a2], fun st en => by rw [b3 st en, a3 st en],
+    fun pre mt => by rw [b4 pre mt, a4 pre mt]⟩
 
 end NutsProofs.C16
